@@ -395,3 +395,174 @@ Proof.
   intros j Hj Hok. apply Hn; [exact Hj|exact Hok|]. left. apply In_indices. now apply lt_of_ok.
 Qed.
 End Copies.
+
+(* ------------------------------------------------------------------ after gc AND the recovery pass *)
+Lemma recover_forward q k h c :
+  (k < length q)%nat -> si_ok (nth_si q k) = true -> NoDup (akeys (scr_of (nth_si q k))) ->
+  afind h (scr_of (nth_si q k)) = Some c ->
+  afind h (scr_of (nth_si (recover q) k)) =
+  Some (if tstate_eqb (c_state c) InTransfer && orphan q k h then set_state c Normal else c).
+Proof.
+  intros Hk Hok Hnd Hf. rewrite nth_si_recover. apply Nat.ltb_lt in Hk. rewrite Hk.
+  unfold recover_shard. rewrite Hok. cbn [scr_of set_scr si_scr].
+  revert Hnd Hf. generalize (scr_of (nth_si q k)). intros m. induction m as [|[h' c'] r IH]; simpl; [discriminate|].
+  intros Hnd. inversion Hnd as [|? ? Hn Hr]; subst.
+  destruct (N.eqb_spec h h') as [<-|Hne].
+  - intros [= ->]. destruct (tstate_eqb (c_state c) InTransfer && orphan q k h); simpl; now rewrite N.eqb_refl.
+  - intros Hf. destruct (tstate_eqb (c_state c') InTransfer && orphan q k h'); simpl;
+      (destruct (N.eqb_spec h h'); [contradiction | now apply IH]).
+Qed.
+
+(* one cycle's garbage collection and recovery pass: the target is on exactly one in-sync shard, in normal state *)
+Theorem one_normal_copy_after_gc_and_recovery o active w h cw p :
+  is_active active h = true -> nodup_plan p ->
+  si_ok (nth_si p w) = true -> afind h (scr_of (nth_si p w)) = Some cw -> (min_wait <= c_times cw)%N ->
+  (forall j c, j <> w -> si_ok (nth_si p j) = true -> afind h (scr_of (nth_si p j)) = Some c -> worse o w cw p j c) ->
+  let p1 := recover (gc o active p) in
+  (exists c', afind h (scr_of (nth_si p1 w)) = Some c' /\ c_state c' = Normal) /\
+  forall j, j <> w -> si_ok (nth_si p j) = true -> afind h (scr_of (nth_si p1 j)) = None.
+Proof.
+  intros Hact Hnd Hwok Hw Hwt Hbest. cbn zeta.
+  destruct (gc_leaves_the_best_copy o active w h cw p Hact Hnd Hwok Hw Hwt Hbest) as [Gw Go].
+  set (q := gc o active p) in *.
+  assert (Hqnd : nodup_plan q) by now apply gc_nodup.
+  assert (Hqok : forall j, si_ok (nth_si q j) = si_ok (nth_si p j)) by (intros j; apply (proj1 (gc_flags o active p j))).
+  assert (Hlen : length q = length p) by apply gc_length.
+  split.
+  - assert (Hk : (w < length q)%nat) by (rewrite Hlen; now apply lt_of_ok).
+    rewrite (recover_forward q w h cw Hk); [|now rewrite Hqok|apply Hqnd|exact Gw].
+    destruct (tstate_cases (c_state cw)) as [Es|Es]; rewrite Es; cbn [tstate_eqb andb].
+    + exists cw. auto.
+    + assert (Ho : orphan q w h = true).
+      { unfold orphan. apply negb_true_iff. apply not_true_iff_false. intros Hex. apply existsb_exists in Hex.
+        destruct Hex as [j [_ Hj]]. apply andb_true_iff in Hj. destruct Hj as [Hj Hm]. apply andb_true_iff in Hj.
+        destruct Hj as [Hne Hokj]. apply negb_true_iff, Nat.eqb_neq in Hne. rewrite Hqok in Hokj.
+        unfold amem in Hm. rewrite (Go j Hne Hokj) in Hm. discriminate. }
+      rewrite Ho. exists (set_state cw Normal). split; reflexivity.
+  - intros j Hj Hok. destruct (afind h (scr_of (nth_si (recover q) j))) as [c|] eqn:E; [|reflexivity].
+    destruct (recover_find q j h c E) as [c0 [E0 _]]. rewrite (Go j Hj Hok) in E0. discriminate.
+Qed.
+
+(* ------------------------------------------------------------------ a best copy exists *)
+Section Best.
+Variables (o : opts) (p : plan) (h : N).
+Definition better (i : nat) (ci : cstat) (j : nat) (cj : cstat) : Prop :=
+  (c_state cj = InTransfer /\ c_state ci = Normal) \/
+  (c_state cj = c_state ci /\
+   (load_of o (nth_si p i) < load_of o (nth_si p j) \/ (load_of o (nth_si p i) = load_of o (nth_si p j) /\ (i < j)%nat))).
+
+Lemma better_total i ci j cj : i <> j -> better i ci j cj \/ better j cj i ci.
+Proof.
+  intros Hne. unfold better.
+  destruct (tstate_cases (c_state ci)) as [Ei|Ei], (tstate_cases (c_state cj)) as [Ej|Ej]; rewrite Ei, Ej.
+  - destruct (Z.lt_total (load_of o (nth_si p i)) (load_of o (nth_si p j))) as [H|[H|H]]; [left|destruct (Nat.lt_total i j) as [H2|[H2|H2]]; [left|contradiction|right]|right];
+      right; split; auto; try lia.
+  - left. left. auto.
+  - right. left. auto.
+  - destruct (Z.lt_total (load_of o (nth_si p i)) (load_of o (nth_si p j))) as [H|[H|H]]; [left|destruct (Nat.lt_total i j) as [H2|[H2|H2]]; [left|contradiction|right]|right];
+      right; split; auto; try lia.
+Qed.
+
+Lemma better_trans i ci j cj k ck : better i ci j cj -> better j cj k ck -> better i ci k ck.
+Proof.
+  unfold better. intros [[A B]|[A B]] [[C D]|[C D]].
+  - congruence.
+  - left. split; congruence.
+  - left. split; congruence.
+  - right. split; [congruence|]. lia.
+Qed.
+
+Definition holder_below (n : nat) (j : nat) (c : cstat) : Prop :=
+  (j < n)%nat /\ si_ok (nth_si p j) = true /\ afind h (scr_of (nth_si p j)) = Some c.
+
+Lemma holder_dec : forall n, (exists j c, holder_below n j c) \/ ~ (exists j c, holder_below n j c).
+Proof.
+  induction n as [|n IH]; [right; intros [j [c [H _]]]; lia|].
+  destruct IH as [[j [c [H1 H2]]]|Hno]; [left; exists j, c; split; [lia|exact H2]|].
+  destruct (si_ok (nth_si p n)) eqn:Hok; [destruct (afind h (scr_of (nth_si p n))) as [cn|] eqn:Hn|].
+  - left. exists n, cn. split; [lia|auto].
+  - right. intros [j [c [Hlt [Hk Hf]]]]. destruct (Nat.eq_dec j n) as [->|]; [congruence|]. apply Hno. exists j, c. split; [lia|auto].
+  - right. intros [j [c [Hlt [Hk Hf]]]]. destruct (Nat.eq_dec j n) as [->|]; [congruence|]. apply Hno. exists j, c. split; [lia|auto].
+Qed.
+
+Lemma best_below : forall n, (exists j c, holder_below n j c) ->
+  exists w cw, holder_below n w cw /\ forall j c, j <> w -> holder_below n j c -> better w cw j c.
+Proof.
+  induction n as [|n IH]; intros [j [c H]]; [destruct H as [H _]; lia|].
+  destruct (si_ok (nth_si p n)) eqn:Hok; [destruct (afind h (scr_of (nth_si p n))) as [cn|] eqn:Hn|].
+  - (* shard n holds a copy *)
+    destruct (holder_dec n) as [Hsome|Hnone].
+    + destruct (IH Hsome) as (w0 & c0 & [Hw0 [Hok0 Hf0]] & Hbest0).
+      assert (Hne : w0 <> n) by lia.
+      destruct (better_total w0 c0 n cn Hne) as [Hb|Hb].
+      * exists w0, c0. split; [split; [lia|auto]|]. intros j' c' Hj' [Hlt' [Hok' Hf']].
+        destruct (Nat.eq_dec j' n) as [->|Hjn]; [rewrite Hn in Hf'; injection Hf' as <-; exact Hb|].
+        apply Hbest0; [exact Hj'|]. split; [lia|auto].
+      * exists n, cn. split; [split; [lia|auto]|]. intros j' c' Hj' [Hlt' [Hok' Hf']].
+        destruct (Nat.eq_dec j' w0) as [->|Hjw]; [rewrite Hf0 in Hf'; injection Hf' as <-; exact Hb|].
+        eapply better_trans; [exact Hb|]. apply Hbest0; [exact Hjw|]. split; [lia|auto].
+    + exists n, cn. split; [split; [lia|auto]|]. intros j' c' Hj' [Hlt' [Hok' Hf']]. exfalso. apply Hnone.
+      exists j', c'. split; [lia|auto].
+  - (* shard n is in sync but does not hold the target *)
+    assert (Hsome : exists j c, holder_below n j c).
+    { destruct (Nat.eq_dec j n) as [->|Hjn].
+      - destruct H as [_ [_ Hf]]. rewrite Hn in Hf. discriminate.
+      - exists j, c. destruct H as [? [? ?]]. split; [lia|auto]. }
+    destruct (IH Hsome) as (w0 & c0 & [Hw0 [Hok0 Hf0]] & Hbest0).
+    exists w0, c0. split; [split; [lia|auto]|]. intros j' c' Hj' [Hlt' [Hok' Hf']].
+    destruct (Nat.eq_dec j' n) as [->|Hjn]; [rewrite Hn in Hf'; discriminate|]. apply Hbest0; [exact Hj'|]. split; [lia|auto].
+  - assert (Hsome : exists j c, holder_below n j c).
+    { destruct (Nat.eq_dec j n) as [->|Hjn].
+      - destruct H as [_ [Hk _]]. rewrite Hok in Hk. discriminate.
+      - exists j, c. destruct H as [? [? ?]]. split; [lia|auto]. }
+    destruct (IH Hsome) as (w0 & c0 & [Hw0 [Hok0 Hf0]] & Hbest0).
+    exists w0, c0. split; [split; [lia|auto]|]. intros j' c' Hj' [Hlt' [Hok' Hf']].
+    destruct (Nat.eq_dec j' n) as [->|Hjn]; [rewrite Hok in Hok'; discriminate|]. apply Hbest0; [exact Hj'|]. split; [lia|auto].
+Qed.
+End Best.
+
+(* without naming the best copy: whatever the in-sync shards hold of a discovered target, all of it scraped three times -
+   duplicates, pending transfers with or without partner - one garbage collection and recovery pass leave it on exactly
+   one in-sync shard, in normal state *)
+Theorem gc_recovery_single_normal o active p h :
+  is_active active h = true -> nodup_plan p ->
+  (exists k c, si_ok (nth_si p k) = true /\ afind h (scr_of (nth_si p k)) = Some c) ->
+  (forall j c, si_ok (nth_si p j) = true -> afind h (scr_of (nth_si p j)) = Some c -> (min_wait <= c_times c)%N) ->
+  let p1 := recover (gc o active p) in
+  exists w, si_ok (nth_si p w) = true /\
+    (exists c', afind h (scr_of (nth_si p1 w)) = Some c' /\ c_state c' = Normal) /\
+    forall j, j <> w -> si_ok (nth_si p j) = true -> afind h (scr_of (nth_si p1 j)) = None.
+Proof.
+  intros Hact Hnd [k [c [Hok Hf]]] Htimes. cbn zeta.
+  assert (Hex : exists j c0, holder_below p h (length p) j c0).
+  { exists k, c. split; [now apply lt_of_ok|auto]. }
+  destruct (best_below o p h (length p) Hex) as (w & cw & [Hwl [Hwok Hwf]] & Hbest).
+  exists w. split; [exact Hwok|].
+  apply (one_normal_copy_after_gc_and_recovery o active w h cw p Hact Hnd Hwok Hwf (Htimes w cw Hwok Hwf)).
+  intros j cj Hj Hokj Hfj. unfold worse. split; [now apply (Htimes j cj)|].
+  apply (Hbest j cj Hj). split; [now apply lt_of_ok|auto].
+Qed.
+
+Theorem single_normal_after_gc_and_recovery o i s h :
+  NoDupReports i -> is_active (i_active i) h = true ->
+  (exists k, insync i k = true /\ In h (akeys (reported i k))) ->
+  (forall k c, insync i k = true -> afind h (reported i k) = Some c -> (3 <= c_times c)%N) ->
+  let p1 := st_p1 (run_stages o i s) in
+  exists w, insync i w = true /\
+    (exists c', afind h (scr_of (nth_si p1 w)) = Some c' /\ c_state c' = Normal) /\
+    forall j, j <> w -> insync i j = true -> afind h (scr_of (nth_si p1 j)) = None.
+Proof.
+  intros Hnd Hact [k [Hs Hin]] Htimes. cbn zeta. rewrite stages_p1, stages_p0.
+  set (p0 := map (fun sh => fst (get_info sh)) (i_shards i)).
+  assert (Hok0 : forall j, si_ok (nth_si p0 j) = true -> insync i j = true /\ scr_of (nth_si p0 j) = reported i j).
+  { intros j Hj. assert (Hlt : (j < length (i_shards i))%nat) by (apply lt_of_ok in Hj; unfold p0 in Hj; now rewrite map_length in Hj).
+    unfold p0 in Hj |- *. rewrite nth_si_p0 in * by exact Hlt. split; [exact Hj|]. now apply insync_scr_of. }
+  assert (Hin0 : forall j, insync i j = true -> si_ok (nth_si p0 j) = true).
+  { intros j Hj. unfold p0. rewrite nth_si_p0 by now apply insync_lt. exact Hj. }
+  destruct (gc_recovery_single_normal o (i_active i) p0 h Hact (nodup_p0 i Hnd)) as (w & Hw & Hc & Ho).
+  - apply afind_some_keys in Hin. destruct Hin as [c Hc]. exists k, c. split; [now apply Hin0|].
+    destruct (Hok0 k (Hin0 k Hs)) as [_ ->]. exact Hc.
+  - intros j c Hj Hf. destruct (Hok0 j Hj) as [Hsj Er]. rewrite Er in Hf. assert (Hmw : min_wait = 3%N) by reflexivity.
+    rewrite Hmw. now apply (Htimes j c).
+  - exists w. split; [now apply (Hok0 w Hw)|]. split; [exact Hc|]. intros j Hj Hsj. apply Ho; [exact Hj|now apply Hin0].
+Qed.
